@@ -1,9 +1,84 @@
 N = {"quick": 400, "thorough": 6000}
 EXHAUSTIVE = {"quick": False, "thorough": True}
-RULE = "placeholder"
-ASSUMPTIONS = []
+RULE = ("each random case exercises one section of the real code (share of cases): the channel (25 %: `mpsc_unbounded`, `Tx::send` / `Sink` send on "
+        "several cloned transmitter handles, dropping handles, `UnboundedRx` as Iterator / Stream / `into_stream()`, dropping the receiver, a "
+        "`ChannelTxDroppable::new` / `new_disabled` around one handle with `send` / `disable`; 1-30 ops quick, 1-60 thorough), `ChannelTxDroppable` over a "
+        "custom `Tx` that refuses multiples of 2/3/5/7/1000 and counts drops (8 %), `merge` over two `UnboundedRx::into_stream()`s polled by hand with a "
+        "no-op waker (22 %: sends on either side, transmitter drops, polls at 30/50/70 %), `merge` consumed by a task of a real tokio runtime with two "
+        "concurrent producer tasks (8 %: current-thread and 1/2/4 worker threads, 0-4 / 0-6 items per side, seeded yield points, one or both producers "
+        "dropping their transmitter; the outcome is compared as (left subsequence, right subsequence) against the SET of outcomes the specification "
+        "allows, printed by the Lean side as `{..|..}`), `IndexedStream` over an `UnboundedRx` with an indexer failing on multiples of 3 (8 %), "
+        "`Snapshot` / `SnapUpdates` accessors (3 %), a producer handing out `SnapUpdates {snapshot, updates: rx}` and forwarding updates through a "
+        "`ChannelTxDroppable` to a consumer that folds them (11 %), and the engine run loops (15 %: a real `Engine` with scripted strategy, history of "
+        "0-9 / 0-16 events incl. commands, order snapshots, fills, shutdown, stepped with `process_with_audit`, then `rundrop sync|async K` = three fresh "
+        "engines on the same history: `sync_run_with_audit` / `async_run_with_audit` over a real channel whose receiver is drained and dropped inside the "
+        "K-th `feed.next()`, `sync_run` / `async_run` without audit, and the audited runner with `ChannelTxDroppable::new_disabled()`; compared: sequence "
+        "numbers and terminal flags of the records received, transmitter state, kind of the returned record, final sequence counter, orders / positions / "
+        "prices / trading state of each engine, and PartialEq of the three whole `EngineState`s). Thorough additionally enumerates every history of length "
+        "<= 7 over {ml, mr, mcl, mcr, mpoll} followed by three polls (12 108 valid ones) and every history of length <= 7 over {dsend, disable, poll, "
+        "droprx} on a wrapped channel (6 305). 14 committed corpus cases (corpus/C10C) pin the edge behaviours (items of the surviving input lost at "
+        "the end of a merge, pending polls flipping the fairness flag, transient Tx failure disabling for good, Iterator::next waiting for another "
+        "thread's send, receiver dropped before the first / after the last event of a run). A case is distinct by the SHA-1 of its op lines and non-trivial when the implementation's observation "
+        "blocks differ at least once")
+ASSUMPTIONS = [
+    "a tokio unbounded mpsc channel is modelled as a FIFO list + live-sender count + receiver-alive flag; send / recv / drop are atomic steps "
+    "(tokio's channel is linearizable); `TryRecvError::Empty` is never spurious when no send is in flight (single-threaded correspondence)",
+    "wakers and wake-ups are not modelled: a stream is the state machine of its `poll_next`; the poll-level correspondence polls by hand with a no-op "
+    "waker outside any runtime (tokio's cooperative budget is unconstrained there); the runtime-level `mrun` cases tie the waker path by set membership only",
+    "`<UnboundedRx as Iterator>::next` busy-waits while the queue is empty and a transmitter exists: modelled as the result `spins`; the harness never "
+    "makes that call (it checks `is_empty()` / `sender_strong_count()` first), so the `spins` rows are tied by reading the three-line loop only",
+    "tokio-stream 0.1.19 `Map` / `Chain` / `Fuse` / `Merge` / `MapWhile` and futures-util 0.3.34 `once` are modelled one by one from their sources "
+    "(outside /repo); a change of those crates' behaviour is visible to the correspondence but not to the source hashes",
+    "the merge theorems are about two channel receivers as inputs (the use in ExecutionManager::init has a channel on the left and a reconnecting "
+    "stream on the right); for arbitrary input streams only the combinator definitions are generic",
+    "engine run loops: the engine is abstract in the theorems (`Runner`: process_with_audit, audit(FeedEnded), is_terminal); the driver instantiates it "
+    "with the C10 engine model (`auditRunner`), so everything C10 assumes about that model applies to the `rundrop` observations; "
+    "`EngineMeta::time_start` and timestamps inside records come from `HistoricalClock::time()` (wall clock) and are excluded from the comparison",
+    "tracing output (the `warn!` of ChannelTxDroppable::send, the `info!` lines of the runners) and the derived Eq / Ord / Serialize impls are not modelled",
+]
 SOURCE_FILES = ["barter-integration/src/channel.rs", "barter-integration/src/snapshot.rs", "barter-integration/src/stream/merge.rs",
                 "barter-integration/src/stream/indexed.rs", "barter/src/engine/run.rs", "barter/src/engine/audit/mod.rs",
                 "barter/src/system/builder.rs"]
+
+
+def signature(ops, k, key, impl_line, spec_line):
+    op = ops[k].split()[0] if k < len(ops) else "?"
+    return f"clause={key}/op={op}"
+
+
 CLAIM = False
-LEVEL_TEXT = "placeholder"
+TECHNIQUE = ("Lean 4: channel = FIFO list with liveness flags; ChannelTxDroppable = two-state machine over an arbitrary `Tx`; refinement of the "
+             "queue-based system to a log-with-cursor specification by a simulation relation preserved by every operation (induction over histories); "
+             "tokio-stream combinators modelled one by one and `merge` proved equal to a flat two-queue machine, then invariant + MergeSpec predicate "
+             "for all send/close/poll histories, fairness and promptness; run loops over an abstract engine: independence of engine evolution from "
+             "the audit transmitter for all Tx / worlds / environments, audited run = operation history of the transmitter-receiver system; "
+             "correspondence with the real channel, ChannelTxDroppable, merge (poll level and under a real scheduler), IndexedStream and run loops")
+LEVEL_TEXT = ("Proof (sub-check of C10). lean/BarterModel/Props/C10C.lean, all for unbounded histories / arbitrary items: CHANNEL - send is Ok iff the "
+              "receiver is alive (send_ok_iff_receiver_alive, send_effect), FIFO (chan_fifo), end of stream iff drained and no transmitter left "
+              "(recv_done_iff), Iterator view busy-waits exactly where the Stream view is pending (iterator_spins_iff, iterator_agrees_with_stream), "
+              "operation-by-operation refinement of the bare channel to an append-only log with a read cursor (chan_refines_spec_stepwise). "
+              "CHANNELTXDROPPABLE over ANY Tx - disabled send is a no-op on every world, new_disabled sends nothing, never re-enabled, transparent while "
+              "sends succeed, the first failed send disables + drops the wrapped Tx and all later items have no effect (disabled_send_is_noop, "
+              "new_disabled_sends_nothing, never_reenabled, transparent_while_ok, first_failure_disables, disable_idempotent, flaky_delivers_prefix). "
+              "TRANSMITTER + RECEIVER, every history of send / disable / recv / drop-receiver - refines_spec (simulation with the log-with-cursor spec), "
+              "received <+: accepted <+: offered (in order, nothing twice, nothing after the first failure), nothing lost while the receiver lives, "
+              "active => everything accepted, no cut => everything delivered, disabled is permanent, new_disabled receives nothing. SNAPSHOT - functor "
+              "laws; replica_tracks_producer / replica_current_when_caught_up: folding the received updates onto the snapshot gives the producer's "
+              "state after that many updates. MERGE - the composition map(Some).chain(once(None)) x2 / Merge / map_while / fuse over two receivers is the "
+              "flat alternating two-queue machine (merge_is_flat_machine), every history keeps one of two shapes (merge_shape) and satisfies the "
+              "doc-comment specification MergeSpec: per-input prefix, interleaving, ended only because a closed input was handed over completely "
+              "(merge_satisfies_spec, interleave_exactly_once, merge_nothing_lost), fused (merge_fused), pending iff nothing to hand over and nobody "
+              "closed (merge_pending_iff), fair (merge_fair: two polls serve both inputs), prompt (merge_prompt: ends within two polls of an input being "
+              "closed and drained, at most one more item), and the executable outcome set used for runs under a real scheduler is sound "
+              "(merge_outcome_allowed); IndexedStream maps item by item incl. errors (indexed_maps_every_item). RUN LOOPS - for every engine, feed, Tx, "
+              "world and environment the audited runners leave the engine and the returned record exactly as the plain runners "
+              "(audit_does_not_affect_engine), a disabled transmitter never touches its world, the returned record is the last and only terminal one "
+              "(shutdown_record_is_last), an audited run over a channel IS an operation history of the transmitter + receiver system "
+              "(audited_run_is_history) hence the consumer holds a prefix of the records whatever it does (audit_received_prefix_of_ticks) and all of "
+              "them if it keeps listening (audit_complete_while_listening), a consumer dropping at the K-th event holds exactly the first K "
+              "(rundrop_receives_exact_prefix), and with the C10 engine the records are C10's audit stream (run_loop_is_C10_model) so those K carry "
+              "consecutive sequence numbers (audit_consumer_holds_consecutive_prefix). Tied to the code by running the same operation sequences through "
+              "the real channel, ChannelTxDroppable, merge, IndexedStream, Snapshot / SnapUpdates and sync/async run loops of a real Engine on every run.")
+LEVEL_NOTE = ("Trusted: Lean kernel; axioms propext/Classical.choice/Quot.sound only; the hand-written model incl. its reading of tokio-stream 0.1.19 / "
+              "futures-util 0.3.34 combinators and of tokio's unbounded channel (sampled correspondence: 400 quick / 6 000 random + 18 413 enumerated "
+              "thorough); harness and driver. Wakers, cooperative budgeting, cross-thread visibility of channel operations are not modelled (atomic steps).")
